@@ -10,6 +10,36 @@ CHECKS = {
  'C02': dict(engine='tapecheck+refdiff', technique='property-based differential testing against the Fortran reference over the (isotope, level, mode, window) grid',
    text='Generated-input differential search over double-beta configurations accepted by the reference: initialisation (ier, toallevents, level energy, spin, deviates consumed) and N generated events per configuration are compared with the Fortran reference driven from the same tapes. Quick tier samples the grid stratified; thorough tier enumerates every (isotope, level, mode) and four window classes.',
    note='Same trusted base as C01. Mode 20 with level>0 is excluded (README: quadruple beta only to the ground state; the reference silently forces level 0). Known findings are matched by signature and excluded from the search by construction.', ref='4 C02, 3'),
+ 'C03': dict(engine='tapecheck+gencheck', technique='property-based testing with a conservation-law oracle (energy budget vs Q-value and level tables, window membership, toallevents monotonicity)',
+   text='Generated configurations (isotope, level, mode, window class) accepted by decay0_generator and steered tapes; every event is checked against an oracle that is independent of the port: Q-values from the reference table, level energies from the README appendix, window bounds, toallevents >= 1 and monotone under nested windows.',
+   note='Tolerance 3 keV (tabulated-energy rounding), 1e-6 MeV on window bounds (float storage). Follow-up alpha chains of Bi214/Pb214/Po218/Rn222 are not part of the budget. gA modes are exercised in C14.', ref='4 C03'),
+ 'C04': dict(engine='tapecheck+gencheck', technique='property-based testing with a validity predicate over tail-steered deviate tapes',
+   text='All 69 published background names and the accepted double-beta configurations are shot through decay0_generator from tapes steered into the extreme tails (1e-12, 1-1e-12) and onto the reference branching thresholds; each event must satisfy the well-formedness predicate and each shot must stay within 20000 deviates.',
+   note='The deviate budget (20000) is a harness bound far above the observed maximum (<300); exceeding it is reported as unbounded work.', ref='4 C04'),
+ 'C05': dict(engine='tapecheck+gencheck', technique='property-based differential testing against a hand-written name->scheme composition table; exhaustive catalogue comparison',
+   text='For every published background name the event produced by genbbsub is compared bit for bit with the composition of the nuclide\'s own public scheme functions on the same tape; every pair of names where one is a prefix of the other is checked against concatenation; README lists, .lis files, API sets, mode tables and a universe of 49400 candidate names are compared completely.',
+   note='The name->scheme table is written from the reference dispatch and the README, not from genbbsub.cc.', ref='4 C05'),
+ 'C06': dict(engine='gridcheck', technique='exhaustive enumeration of the accept/reject grid against the reference ier and the documented rule table, plus generated events on every accepted point',
+   text='The finite grid (58 names x levels -1..17 x modes 0..25 x 5 window kinds, two API layers) is enumerated completely in both tiers and compared with the Fortran reference\'s ier plus the documented BxDecay0 rules; every accepted point shoots events through the C03/C04 predicates; every rejected point must refuse to shoot; all labels round-trip.',
+   note='Names are compared only on published spellings and on names both sides must refuse. Positive gA points need a data set (C14); their negatives are enumerated here.', ref='4 C06'),
+ 'C07': dict(engine='rapidcheck', technique='stateful property-based testing (generated API histories, whole-sequence shrinking) with a fresh-instance metamorphic oracle',
+   text='rapidcheck-generated histories over a pool of generators and event objects; at every shot the event must be bit-identical to what a fresh generator writes into a fresh event from the same tapes.',
+   note='18 configurations chosen for angular correlations, deep cascades, chains, windows, 4b and b+ modes; thorough tier repeats under ASan/UBSan.', ref='4 C07'),
+ 'C08': dict(engine='libFuzzer+sanitized drivers', technique='coverage-guided fuzzing (structure-aware libFuzzer target) and property-based drivers run under ASan/UBSan/_GLIBCXX_ASSERTIONS',
+   text='The generation drivers of C04/C05 are re-run against an ASan+UBSan+_GLIBCXX_ASSERTIONS build and a structure-aware libFuzzer target explores (configuration, reuse pattern, MDL operation, tape); any sanitizer report is a violation.',
+   note='Sanitizers are the oracle; leak detection is off; documented rejections (exceptions) are not failures.', ref='4 C08'),
+ 'C09': dict(engine='proto (exhaustive DFS + rapidcheck)', technique='exhaustive enumeration of call sequences up to a fixed length + stateful property-based testing against an explicit protocol model',
+   text='All sequences of up to 4 (quick) / 5 (thorough) calls over an alphabet of 24 abstract public calls are enumerated and compared with an explicit model after every step; rapidcheck adds longer sequences with whole-sequence shrinking.',
+   note='Quadrature is stubbed in this binary; acceptance of a configuration is taken from a fresh instance (C06 decides acceptance itself).', ref='4 C09'),
+ 'C10': dict(engine='tapecheck+mdlcheck', technique='property-based testing with geometric invariants and metamorphic relations (op vs no-op event, degree vs radian entry point)',
+   text='Generated events, cones, species filters, ranks and entry points; oracle: invariants of a rigid rotation, cone / rectangular-window membership, untouched unselected particles, and equality of the event with the op applied to the op-less event on the tape suffix.',
+   note='Rectangular half-angle exactly 0 is outside the domain (empty window).', ref='4 C10'),
+ 'C11': dict(engine='rapidcheck', technique='stateful property-based testing against a list model with a textual 15-digit round trip',
+   text='rapidcheck-generated streams, file partitions with empty files, (start,max) windows and interleavings of has_next_event/load_next_event; the reader must deliver exactly stream[start:start+max], each event textually identical at 15 digits.',
+   note='NaN/inf and empty labels are outside the documented format.', ref='4 C11'),
+ 'C16': dict(engine='tapecheck+kernels', technique='property-based testing against closed forms',
+   text='Seven numerical kernels are compared with closed forms over generated parameters (monomial exactness, analytic integrals, known extrema, polynomial interpolation, independent rotation matrix, independent complex-Gamma evaluation).',
+   note='Integrands are restricted to what the non-adaptive 87-point rule can resolve.', ref='4 C16'),
 }
 NOT_YET = {}
 
